@@ -367,7 +367,7 @@ def run(ctx):
     for n_rows in [5, 40, 127, 128, 129, 200, 300] + ([] if ctx.quick else [600, 1000]):
         if not collapse_case(ctx, rng, n_rows, rng.randint(2, 5)):
             return
-    for i in range(ctx.n(160, 5000)):
+    for i in range(ctx.n(160, 2000)):
         if not run_history(ctx, rand_history(rng)) and len(ctx.violations) + len(ctx.mismatches) >= 3:
             return
     # array form: all pairs of single words on 2 qubits (exhaustive), random multi-term pairs on <= 4 qubits
@@ -376,7 +376,7 @@ def run(ctx):
         for wb in words2:
             if not multiform_case(ctx, {wa: (Fraction(1), Fraction(0))}, {wb: (Fraction(1, 2), Fraction(0))}, 2):
                 return
-    for i in range(ctx.n(80, 2000)):
+    for i in range(ctx.n(80, 800)):
         n = rng.randint(1, 4)
         if not multiform_case(ctx, rand_terms(rng, "qubit", n), rand_terms(rng, "qubit", n), n) and len(ctx.violations) >= 3:
             return
